@@ -1,5 +1,5 @@
 /-
-C20 — property theorems: the encoder is safe for every text.
+C20 — property theorems: the encoder is safe for every text; the decoder inverts it (K4 hypothesis).
 -/
 import DebInspector.Props.C20
 import DebInspector.Proofs.Splitlines
@@ -64,6 +64,165 @@ theorem safe_ft (t : Str) : safe (formattedTextRoundtrip t) = true := by
     split
     · simp [asFormattedLines, joinNlSp, safe_nil]
     · exact safe_lines _ (splitlines_noB _)
+
+/-! ### the inverse clause -/
+
+theorem rstrip_eq_nil_iff (l : Str) : rstrip l = [] ↔ isBlank l = true := by
+  induction l with
+  | nil => simp [rstrip, isBlank]
+  | cons c cs ih =>
+    simp only [rstrip, isBlank_cons]
+    cases h : rstrip cs with
+    | nil =>
+      have := ih.mp h
+      by_cases hc : isSpace c = true <;> simp [hc, this]
+    | cons d ds =>
+      have : isBlank cs = false := by
+        cases hb : isBlank cs with
+        | false => rfl
+        | true => have := ih.mpr hb; rw [h] at this; cases this
+      simp [this]
+
+theorem rstrip_cons_of_nonblank (c : Char) (cs : Str) (h : isBlank (c :: cs) = false) :
+    rstrip (c :: cs) = c :: rstrip cs := by
+  rw [isBlank_cons] at h
+  simp only [rstrip]
+  cases hr : rstrip cs with
+  | nil =>
+    have hb := (rstrip_eq_nil_iff cs).mp hr
+    have : isSpace c = false := by simpa [hb] using h
+    simp [this]
+  | cons d ds => rfl
+
+theorem rstrip_idem (l : Str) : rstrip (rstrip l) = rstrip l := by
+  induction l with
+  | nil => simp [rstrip]
+  | cons c cs ih =>
+    simp only [rstrip]
+    cases hr : rstrip cs with
+    | nil =>
+      by_cases hc : isSpace c = true
+      · simp [hc, rstrip]
+      · simp [hc, rstrip]
+    | cons d ds =>
+      rw [hr] at ih
+      show rstrip (c :: d :: ds) = c :: d :: ds
+      rw [rstrip, ih]
+
+
+theorem lstrip_cons_nonspace (c : Char) (cs : Str) (h : isSpace c = false) : lstrip (c :: cs) = c :: cs := by
+  simp [lstrip, h]
+
+def okLine (l : Str) : Bool := !startsWith l ['.'] && !(headP (fun c => isSpace c && c != ' ') l)
+
+/-- decoding the encoded continuation line gives the line back without trailing blanks -/
+theorem decLine_enc (l : Str) (h : okLine l = true) : decLine (' ' :: encLine l) = rstrip l := by
+  unfold encLine
+  by_cases hb : isBlank l = true
+  · simp only [hb, if_true]
+    rw [(rstrip_eq_nil_iff l).mpr hb]
+    decide
+  · have hb' : isBlank l = false := by simpa using hb
+    simp only [hb', Bool.false_eq_true, if_false]
+    cases l with
+    | nil => simp [isBlank] at hb'
+    | cons c cs =>
+      have hsp : isBlank (' ' :: c :: cs) = false := by rw [isBlank_cons, hb']; simp
+      have e1 : rstrip (' ' :: c :: cs) = ' ' :: c :: rstrip cs := by
+        rw [rstrip_cons_of_nonblank _ _ hsp, rstrip_cons_of_nonblank _ _ hb']
+      have e2 : rstrip (c :: cs) = c :: rstrip cs := rstrip_cons_of_nonblank _ _ hb'
+      simp only [okLine, startsWith, headP, Bool.and_true, Bool.and_eq_true, Bool.not_eq_true',
+        beq_eq_false_iff_ne, ne_eq] at h
+      unfold decLine
+      simp only [e1, e2]
+      by_cases hc : c = ' '
+      · subst hc; simp [startsWith]
+      · have hns : isSpace c = false := by
+          have := h.2
+          cases hs : isSpace c with
+          | false => rfl
+          | true => simp [hs, hc] at this
+        have hd : c ≠ '.' := h.1
+        have hidem : rstrip (c :: rstrip cs) = c :: rstrip cs := by rw [← e2, rstrip_idem]
+        simp [startsWith, hc, hd, strip, lstrip, sp_space, hns, hidem]
+
+
+/-- hypothesis of the inverse theorem, as the property states it minus the two clauses that only
+concern how `trimmed` reads `t` (they are not needed): no line starts with a full stop, no later line
+starts with white space other than U+0020, and (K4) the first line is not blank -/
+def invertibleCore (t : Str) : Bool :=
+  match splitlines t with
+  | [] => false
+  | l0 :: ls => !isBlank l0 && ls.all okLine
+
+theorem invertible_imp_core (t : Str) (h : invertible t = true) (hf : firstNotBlank t = true) :
+    invertibleCore t = true := by
+  unfold invertible at h
+  unfold firstNotBlank at hf
+  unfold invertibleCore
+  cases hs : splitlines t with
+  | nil => rw [hs] at h; cases h
+  | cons l0 ls =>
+    rw [hs] at h hf
+    simp only [Bool.and_eq_true, List.all_eq_true] at h ⊢
+    refine ⟨hf, ?_⟩
+    intro l hl
+    have := h.1.1.2 l hl
+    simpa [okLine] using this
+
+/-- **C20 inverse (K4 hypothesis)** — for every text whose first line is not blank, with no line
+starting with a full stop and no later line starting with a tab or other non-U+0020 white space,
+`from_formatted_text(as_formatted_text(t))` is `t` with the first line trimmed and trailing blanks
+removed from the other lines (space-indented lines keep their indentation). -/
+theorem inverse_core (t : Str) (h : invertibleCore t = true) :
+    fromFormattedText (asFormattedText t) = trimmed t := by
+  unfold invertibleCore at h
+  unfold trimmed
+  cases hs : splitlines t with
+  | nil => rw [hs] at h; cases h
+  | cons l0 ls =>
+    rw [hs] at h
+    simp only [Bool.and_eq_true, Bool.not_eq_true', List.all_eq_true] at h
+    obtain ⟨hb0, hls⟩ := h
+    have hne : t.isEmpty = false := by
+      cases t with
+      | nil => simp [splitlines, splitlinesAux] at hs
+      | cons _ _ => rfl
+    have hnoB : ∀ l ∈ l0 :: ls, NoB l := by
+      intro l hl; rw [← hs] at hl; exact splitlines_noB t l hl
+    have hp0 := encLine_props l0 (hnoB l0 (by simp))
+    have hps : ∀ q ∈ ls.map encLine, NoB q ∧ q ≠ [] := by
+      intro q hq
+      simp only [List.mem_map] at hq
+      obtain ⟨x, hx, rfl⟩ := hq
+      have := encLine_props x (hnoB x (by simp [hx]))
+      exact ⟨this.1, this.2.1⟩
+    have henc : asFormattedText t = joinNlSp (encLine l0 :: ls.map encLine) := by
+      simp [asFormattedText, hne, hs, asFormattedLines]
+    have hne2 : (joinNlSp (encLine l0 :: ls.map encLine)).isEmpty = false := by
+      have : encLine l0 ≠ [] := hp0.2.1
+      cases hl : encLine l0 with
+      | nil => exact absurd hl this
+      | cons a as => cases ls <;> simp [joinNlSp]
+    have hsplit := splitlines_joinNlSp (encLine l0) (ls.map encLine) hp0.1 hp0.2.1 hps
+    have he0 : encLine l0 = l0 := by simp [encLine, hb0]
+    rw [henc]
+    simp only [fromFormattedText, hne2, Bool.false_eq_true, if_false, lineSeparated, hsplit, fromFormattedLines]
+    rw [he0]
+    congr 2
+    rw [List.map_map, List.map_map]
+    apply List.map_congr_left
+    intro l hl
+    exact decLine_enc l (hls l hl)
+
+theorem inverse_partial (t : Str) (h : invertible t = true) (hf : firstNotBlank t = true) :
+    (model t).decEnc = trimmed t :=
+  inverse_core t (invertible_imp_core t h hf)
+
+/-- non-vacuity: verbatim lines, blank lines, trailing blanks, a dot-only verbatim line -/
+example : invertible "a \n  x  \n\n .\nb".toList = true ∧ firstNotBlank "a \n  x  \n\n .\nb".toList = true ∧
+    (model "a \n  x  \n\n .\nb".toList).decEnc = "a\n  x\n\n .\nb".toList := by decide +kernel
+
 
 /-- non-vacuity: blank, whitespace-only and form-feed lines -/
 example : asFormattedText "a\n\n \t \nb\x0cc".toList = "a\n .\n .\n b\n c".toList := by decide +kernel
